@@ -23,6 +23,7 @@ inline Profile profile_for(const std::string &p) {
   else if (p == "C10") { f.faults = true; f.cancel = true; f.reconfig = true; f.chop = true; f.max_reqs = 8; }
   else if (p == "C12") { f.search = true; f.max_reqs = 4; }
   else if (p == "C13") { f.addr = true; f.max_reqs = 5; }
+  else if (p == "C14") { f.max_reqs = 24; f.callbacks = f.cancel = f.reconfig = f.search = f.cache = true; }
   else if (p == "C17") { f.cookies = true; f.max_reqs = 8; f.all_kinds = false; }
   else if (p == "C20") { f.chop = true; f.max_reqs = 8; f.all_kinds = false; }
   return f;
@@ -109,6 +110,12 @@ inline std::string gen_scenario(const unsigned char *data, size_t size, const st
     if (c.chance(1, 3)) o += "srcaddr 0 192.168.9.9\n";
     o += "rule * r4 0 silence\nreq 4 query r4.test A\ninject " + std::string(c.chance(3, 4) ? "nocookie" : "badclientcookie") + " 4\nstep\nstep\n"; id = 4; ids.push_back(4);
   }
+  if (prop == "C14" && c.chance(1, 4)) {
+    // burst production: many requests outstanding at once (hash tables and lists grow while requests are in flight)
+    o += std::string("rule * * * ") + (c.chance(1, 2) ? "silence" : "delay") + "\n";
+    unsigned nb = 10 + c.pick(12); static const char *ks[] = {"query", "send", "lquery", "search", "getaddrinfo"};
+    for (unsigned j = 0; j < nb && id < pf.max_reqs; j++) { id++; ids.push_back(id); std::string kind = ks[c.pick(5)]; o += "req " + std::to_string(id) + " " + kind + " r" + std::to_string(id) + ".test" + (kind == "getaddrinfo" ? " INET" : " A") + "\n"; if (c.chance(1, 6)) o += "step\n"; }
+  }
   if (prop == "C08" && c.chance(1, 2)) {
     // cache life-cycle production: fill, let time pass (below, at and beyond typical TTLs), ask again through another API / spelling of the same key
     static const char *ks[] = {"query", "send", "lquery", "getaddrinfo", "gethostbyname", "lsend"}; static const char *forms[] = {"r1.test", "R1.TEST", "r1.test.", "r1.Test"};
@@ -154,6 +161,12 @@ inline std::string gen_scenario(const unsigned char *data, size_t size, const st
     else if (k == 19 && pf.cookies && c.chance(1, 2)) { static const char *cm[] = {"valid", "none", "changing", "valid", "short", "wrongclient"}; o += "cookiemode " + std::to_string(c.pick(nserv)) + " " + cm[c.pick(6)] + "\n"; }
     else if (k == 19 && pf.cookies) o += "srcaddr " + std::to_string(c.pick(nserv)) + " 192.168.7." + std::to_string(1 + c.pick(200)) + "\n";
     else o += "step\n";
+  }
+  if (prop == "C14") {
+    // which allocation to refuse: a handful of indices per scenario (reduced modulo the scenario's allocation count), or every index (SIM_C14_ALL=1: thorough tier)
+    const char *all = getenv("SIM_C14_ALL");
+    if (all && *all == '1') o += "failat all\n";
+    else { o += "failat"; unsigned n = 4 + c.pick(8); for (unsigned i = 0; i < n; i++) o += " " + std::to_string(c.chance(1, 3) ? c.pick(200) : c.u32() % 100000); o += "\n"; }
   }
   return o;
 }
